@@ -10,7 +10,7 @@ VARIABLE i
 Init == i = 1
 Next == i <= Len(Rows) /\ i' = i + 1
 
-ErrClass(k) == CASE k \in {"new", "same", "copy", "fail"} -> "PlantedError" [] k = "smiss" -> "PathAccessError"
+ErrClass(k) == CASE k \in {"new", "same", "copy", "fail"} -> "PlantedError" [] k = "smiss" -> "PathAccessError" [] k = "typ" -> "TypeMatchError"
                  [] k \in {"coal", "coalskip"} -> "CoalesceError" [] k \in {"switch", "mdict", "not"} -> "MatchError" [] OTHER -> "GlomError"
 NumStr(n) == CASE n = 1 -> "1" [] n = 2 -> "2" [] n = 3 -> "3" [] n = 4 -> "4" [] n = 5 -> "5" [] n = 6 -> "6"
                [] n = 7 -> "7" [] n = 8 -> "8" [] n = 9 -> "9" [] OTHER -> "?"
